@@ -38,7 +38,7 @@ def rows_from_ticks(moves, start, tick, t0=T0, vunit=1.0):
 
 
 @st.composite
-def structural(draw, n, tick=None, max_body=4, max_wick=4, gap_sizes=(1, 2, 3, 6), start=None, t0=T0, gap_ps=(0, 0, 1, 2, 5)):
+def structural(draw, n, tick=None, max_body=4, max_wick=4, gap_sizes=(1, 2, 3, 6), start=None, t0=T0, gap_ps=(0, 0, 1, 2, 5), spin_ps=(0,)):
     tick = tick if tick is not None else draw(st.sampled_from(TICKS + REAL_TICKS[:1]))
     start = start if start is not None else draw(st.sampled_from([200, 200, 400, 1000, 20000]))
     gap_p = draw(st.sampled_from(list(gap_ps)))  # out of 10
@@ -48,10 +48,11 @@ def structural(draw, n, tick=None, max_body=4, max_wick=4, gap_sizes=(1, 2, 3, 6
     gaps = st.sampled_from(gap_choices)
     body = st.integers(-max_body, max_body)
     wick = st.integers(0, max_wick)
-    kind = st.sampled_from(['n'] * (10 - flat_p) + ['f'] * flat_p)
+    spin_p = draw(st.sampled_from(list(spin_ps))) if len(spin_ps) > 1 else spin_ps[0]  # out of 10: spinning tops (close == open, both wicks)
+    kind = st.sampled_from(['n'] * max(1, 10 - flat_p - spin_p) + ['f'] * flat_p + ['s'] * spin_p)
     minute = st.tuples(gaps, body, wick, wick, st.integers(0, 50), kind)
     raw = draw(st.lists(minute, min_size=n, max_size=n))
-    moves = [(g, 0, 0, 0, v if v % 3 else 0) if k == 'f' else (g, b, u, d, v + 1) for g, b, u, d, v, k in raw]
+    moves = [(g, 0, 0, 0, v if v % 3 else 0) if k == 'f' else ((g, 0, u + 1, d + 1, v + 1) if k == 's' else (g, b, u, d, v + 1)) for g, b, u, d, v, k in raw]
     return dict(tick=tick, start=start, rows=rows_from_ticks(moves, start, tick, t0, vunit=draw(st.sampled_from(VUNITS))))
 
 
